@@ -56,7 +56,25 @@ def shape(kind, k):
         return [[val(x, y) for x in range(n)] for y, n in enumerate((3, 8, 0, 1, 10, 2))]
     if kind == 'transp':
         return [[16 if (x + y) % 2 else val(x, y) for x in range(9)] for y in range(9)]
+    if ':' in kind:
+        return shape(kind.split(':')[0], k)
     raise ValueError(kind)
+
+
+def as_iterables(rows, how):
+    """The same pixels / tile ids handed over in another shape the docstrings allow ("an iterable of iterables"): rows as
+    one-shot iterators, the whole thing as a generator of generators, tuples, bytes rows, reversed() objects."""
+    if how == 'iter-rows':
+        return [iter(r) for r in rows]
+    if how == 'gen-gen':
+        return ((v for v in r) for r in rows)
+    if how == 'tuples':
+        return tuple(tuple(r) for r in rows)
+    if how == 'bytes-rows':
+        return [bytes(r) for r in rows]
+    if how == 'reversed':
+        return reversed([reversed(list(reversed(r))) for r in reversed(rows)])
+    return rows
 
 
 SHAPES = ['1x1', '8x8', '9x9', '17x17', 'ragged', 'transp']
@@ -169,11 +187,17 @@ def apply_impl(g, op):
     fn = op[0]
     if fn == 'set_sprite':
         _, id, sh, k, xo, yo = op
-        return g.gfx.set_sprite(id, shape(sh, k), tile_x_offset=xo, tile_y_offset=yo)
+        rows = shape(sh, k)
+        if ':' in sh:
+            rows = as_iterables(rows, sh.split(':')[1])
+        return g.gfx.set_sprite(id, rows, tile_x_offset=xo, tile_y_offset=yo)
     if fn == 'set_cell':
         return g.map.set_cell(op[1], op[2], op[3])
     if fn == 'set_rect_tiles':
-        return g.map.set_rect_tiles(rect(op[1], op[2], op[3]), op[2], op[3])
+        rows = rect(op[1].split(':')[0], op[2], op[3])
+        if ':' in op[1]:
+            rows = as_iterables(rows, op[1].split(':')[1])
+        return g.map.set_rect_tiles(rows, op[2], op[3])
     if fn == 'get_sprite':
         return g.gfx.get_sprite(op[1], tile_width=op[2], tile_height=op[3])
     if fn == 'get_cell':
@@ -211,7 +235,7 @@ def apply_model(m, op):
     if fn == 'set_cell':
         return M.set_cell(m, op[1], op[2], op[3])
     if fn == 'set_rect_tiles':
-        return M.set_rect_tiles(m, rect(op[1], op[2], op[3]), op[2], op[3])
+        return M.set_rect_tiles(m, rect(op[1].split(':')[0], op[2], op[3]), op[2], op[3])
     if fn == 'get_sprite':
         return M.get_sprite(m, op[1], op[2], op[3])
     if fn == 'get_cell':
@@ -256,16 +280,20 @@ def op_sig(op):
     fn = op[0]
     if fn == 'set_sprite':
         _, id, sh, k, xo, yo = op
+        how = ('|rows-as-' + sh.split(':')[1]) if ':' in sh else ''
+        sh = sh.split(':')[0]
         col, row = id % 16, id // 16
         w = {'1x1': 1, '8x8': 8, '9x9': 9, '17x17': 17, 'ragged': 10, 'transp': 9}[sh]
         hgt = {'1x1': 1, '8x8': 8, '9x9': 9, '17x17': 17, 'ragged': 6, 'transp': 9}[sh]
         cx = col * 8 + xo + w - 128
         cy = row * 8 + yo + hgt - 128
-        return 'set_sprite|right%s|bottom%s' % (edge(cx), edge(cy))
+        return 'set_sprite|right%s|bottom%s%s' % (edge(cx), edge(cy), how)
     if fn == 'set_rect_tiles':
-        w = {'3x3': 3, '12x12': 12, 'ragged': 4}[op[1]]
-        hgt = {'3x3': 3, '12x12': 12, 'ragged': 4}[op[1]]
-        return 'set_rect_tiles|right%s|bottom%s' % (edge(op[2] + w - 128), edge(op[3] + hgt - 64))
+        rk = op[1].split(':')[0]
+        how = ('|rows-as-' + op[1].split(':')[1]) if ':' in op[1] else ''
+        w = {'3x3': 3, '12x12': 12, 'ragged': 4}[rk]
+        hgt = {'3x3': 3, '12x12': 12, 'ragged': 4}[rk]
+        return 'set_rect_tiles|right%s|bottom%s%s' % (edge(op[2] + w - 128), edge(op[3] + hgt - 64), how)
     if fn == 'set_cell':
         return 'set_cell|row%s' % ('hi' if op[2] > 31 else 'lo')
     return fn
@@ -575,6 +603,16 @@ def sweep_setters():
     for x in range(0, 128, 9):
         for y in range(0, 64, 5):
             ops.append(('set_rect_tiles', '3x3', x, y))
+    # the same data in every shape of "iterable of iterables"
+    for how in ('iter-rows', 'gen-gen', 'tuples', 'bytes-rows', 'reversed'):
+        for id in (0, 17, 255):
+            for sh in ('8x8', '9x9', 'ragged', 'transp'):
+                if how == 'bytes-rows' and sh == 'transp':
+                    continue
+                ops.append(('set_sprite', id, sh + ':' + how, id % 16, id % 3, id % 5))
+        for (x, y) in ((0, 0), (126, 30), (100, 62)):
+            for rk in ('3x3', 'ragged'):
+                ops.append(('set_rect_tiles', rk + ':' + how, x, y))
     return ops
 
 
